@@ -1251,6 +1251,24 @@ func refSynthesised(ws []wireRR, i int, zw []byte) bool {
 	return false
 }
 
+// denialExpanded: an NSEC / NSEC3 RRset whose RRSIG counts fewer labels than the owner has (a leading
+// "*" label not counted): RFC 4035 §2.3 / RFC 4592 §4.6, a denial record is never synthesised from a
+// wildcard, so VerifyRRSIG refuses it although the signature verifies (documented narrowing).
+func denialExpanded(sig *dns.RRSIG, ws []wireRR) bool {
+	if len(ws) == 0 || (sig.TypeCovered != dns.TypeNSEC && sig.TypeCovered != dns.TypeNSEC3) {
+		return false
+	}
+	ls, _, ok := splitWireName(ws[0].owner)
+	if !ok {
+		return false
+	}
+	n := len(ls)
+	if n > 0 && bytes.Equal(ls[0], []byte("*")) {
+		n--
+	}
+	return int(sig.Labels) < n
+}
+
 // rootTargetSynthesis: some CNAME of the message is the RFC 6672 synthesis of an in-zone DNAME whose target is the root.
 func rootTargetSynthesis(ws []wireRR, zw []byte) bool {
 	for i := range ws {
@@ -1411,7 +1429,7 @@ func execVerifyMsg(f []string) vlib.Res {
 	// records; authority records other than NS) is covered by a signature that is inside its validity
 	// period and verifies under an offered key; a record outside the zone in the answer section is fatal
 	zw, zok := packName(zone)
-	want, wantStrict := zok && len(keys) > 0, false
+	want, wantStrict, denialRefused := zok && len(keys) > 0, false, false
 	var need [][]int
 	if want {
 		keep, fatal := collectedIdx(ws, nAns, zw)
@@ -1431,7 +1449,7 @@ func execVerifyMsg(f []string) vlib.Res {
 			break
 		}
 		set, wset := pick(rrs, idx), pick(ws, idx)
-		plain, strict := false, false
+		plain, strict, denialOnly := false, false, false
 		for _, s := range sigs {
 			if !(int64(s.Inception) <= now && now <= int64(s.Expiration)) {
 				continue
@@ -1443,7 +1461,10 @@ func execVerifyMsg(f []string) vlib.Res {
 			for _, k := range keys {
 				o, t := judgeVerdict("x", true, k, s, set, wset)
 				if o == "ok" && (t == "agree-accept" || t == "wide-exponent-accept") {
-					if len(strictReasons(k, s, wset)) > 0 {
+					if denialExpanded(s, wset) {
+						denialOnly = true
+					}
+					if len(strictReasons(k, s, wset)) > 0 || denialExpanded(s, wset) {
 						strict = true
 					} else {
 						plain = true
@@ -1454,10 +1475,16 @@ func execVerifyMsg(f []string) vlib.Res {
 		if !plain {
 			want = false
 			wantStrict = wantStrict || strict
+			denialRefused = denialRefused || denialOnly
 		}
 	}
 	or, tag := "ok", "agree-reject"
 	switch {
+	case got && !want && denialRefused:
+		// RFC 4035 §2.3 / RFC 4592 §4.6: an RRset of the message is covered only by a signature that
+		// verifies as the wildcard's NSEC / NSEC3 renamed to an expansion
+		or = "FAIL sig=vfy/VerifyRRSIG/wildcard-expanded-denial-record-accepted"
+		tag = "permissive"
 	case got && !want && !wantStrict:
 		or = "FAIL sig=vfy/VerifyRRSIG/accepts-unverifiable-rrset"
 		tag = "permissive"
